@@ -8,13 +8,14 @@ sys.path.insert(0, os.path.dirname(os.path.abspath(__file__)))
 import py2lean2 as T
 L, O, D, P = T.L, T.O, T.D, T.P
 
-HEADER = "from operator import itemgetter\nfrom six.moves import xrange\n"
+HEADER = "from operator import itemgetter\nfrom six.moves import xrange\nfrom math import floor\n"
 
 
-def run(src, params, ret, locals_):
+def run(src, params, ret, locals_, **extra):
     mod = ast.parse(HEADER + src)
     f = [s for s in mod.body if isinstance(s, ast.FunctionDef)][0]
     spec = dict(lean=f.name, file='<test>', cls=None, py=f.name, model='-', params=params, ret=ret, locals=locals_)
+    spec.update(extra)
     return T.Tr(spec, '<test>', mod, f).function()
 
 
@@ -45,7 +46,36 @@ def t_dict(keys):
      {'d': D('String', 'Nat'), 'n': 'Nat', 'k': 'String', 's': L(P('String', 'Nat'))}),
 ]
 
+# stage-3 idioms: recursion on fuel, tuple return / unpacking, true division + floor, sets, conditional expression
+POS3 = [
+    ("""
+def t_rec(xs, lo, hi):
+    if lo >= hi:
+        return lo, 0
+    mid = int(floor((lo + hi) / 2))
+    (a, n) = t_rec(xs, mid + 1, hi)
+    return a, n + (1 if xs[mid] > 2 else 0)
+""", [('xs', L('Nat')), ('lo', 'Int'), ('hi', 'Int')], T.T('Int', 'Nat'), {'mid': 'Int', 'a': 'Int', 'n': 'Nat'},
+     dict(fuel=dict(exhausted='(lo, 0)'),
+          calls={'t_rec': dict(lean='t_rec', fuel='fuel', args=[L('Nat'), 'Int', 'Int'], ret=T.T('Int', 'Nat'))})),
+    ("""
+def t_set(xs, ys):
+    seen = set()
+    for x in xs:
+        seen.add(x)
+    seen.update(ys)
+    both = set(xs).intersection(set(ys))
+    return len(seen) - len(both)
+""", [('xs', L('Nat')), ('ys', L('Nat'))], 'Int', {'seen': ('Set', 'Nat'), 'x': 'Nat', 'both': ('Set', 'Nat')}, {}),
+]
+
 NEG = [
+    ('row stored and mutated afterwards', "def f(xs):\n    out = []\n    for x in xs:\n        r = [x]\n        out.append(r)\n        r.append(x)\n    return out\n",
+     [('xs', L('Nat'))], L(L('Nat')), {'out': L(L('Nat')), 'x': 'Nat', 'r': L('Nat')}),
+    ('list parameter rebound', "def f(xs):\n    xs = [1]\n    return xs\n", [('xs', L('Nat'))], L('Nat'), {}),
+    ('true division where an int is expected', "def f(n):\n    return n / 2\n", [('n', 'Nat')], 'Nat', {}),
+    ('recursion without a fuel entry', "def f(n):\n    return f(n)\n", [('n', 'Nat')], 'Nat', {}),
+    ('negative list index constant', "def f(xs):\n    return xs[-1]\n", [('xs', L('Nat'))], 'Nat', {}),
     ('while', "def f(xs):\n    n = 0\n    while n < 3:\n        n += 1\n    return n\n", [('xs', L('Nat'))], 'Nat', {'n': 'Nat'}),
     ('break', "def f(xs):\n    n = 0\n    for x in xs:\n        break\n    return n\n", [('xs', L('Nat'))], 'Nat', {'n': 'Nat', 'x': 'Nat'}),
     ('alias', "def f(xs):\n    a = []\n    b = a\n    a.append(1)\n    return b\n", [('xs', L('Nat'))], L('Nat'), {'a': L('Nat'), 'b': L('Nat')}),
@@ -59,7 +89,7 @@ NEG = [
     ('loop variable used after the loop', "def f(xs):\n    n = 0\n    for x in xs:\n        n += 1\n    return x\n", [('xs', L('Nat'))], 'Nat', {'n': 'Nat', 'x': 'Nat'}),
     ('Option iterated without a None test', "def f(xs):\n    n = 0\n    for x in xs:\n        n += 1\n    return n\n", [('xs', O(L('Nat')))], 'Nat', {'n': 'Nat', 'x': 'Nat'}),
     ('int truthiness', "def f(n):\n    a = []\n    if n:\n        a.append(n)\n    return a\n", [('n', 'Nat')], L('Nat'), {'a': L('Nat')}),
-    ('multiplication', "def f(n):\n    return n * 2\n", [('n', 'Nat')], 'Nat', {}),
+    ('power', "def f(n):\n    return n ** 2\n", [('n', 'Nat')], 'Nat', {}),
     ('list comprehension', "def f(xs):\n    return [x for x in xs]\n", [('xs', L('Nat'))], L('Nat'), {'x': 'Nat'}),
     ('sorted without key', "def f(xs):\n    return sorted(xs)\n", [('xs', L('Nat'))], L('Nat'), {}),
     ('negative slice start', "def f(xs):\n    return xs[1:2]\n", [('xs', L('Nat'))], L('Nat'), {}),
@@ -80,6 +110,8 @@ def main():
     text = 'import SSJ.Model.Filters\nnamespace SSJ.Gen2Test\nopen SSJ\n'
     for src, params, ret, locs in POS:
         text += run(src, params, ret, locs) + '\n'
+    for src, params, ret, locs, extra in POS3:
+        text += run(src, params, ret, locs, **extra) + '\n'
     # expected values computed by running the Python functions themselves
     env = {'xrange': range}
     exec('from operator import itemgetter\n' + POS[0][0] + POS[1][0], env)
@@ -95,6 +127,10 @@ def main():
     text += '#guard t_xrange 4 2 = ([] : List (Int × Int))\n'
     assert env['t_xrange'](4, 2) == []
     text += '#guard t_dict ["b", "a", "b", "c"] = %s\n' % lit(env['t_dict'](['b', 'a', 'b', 'c']))
+    env3 = {'floor': __import__('math').floor}
+    exec(POS3[0][0] + POS3[1][0], env3)
+    text += '#guard t_rec 10 [1, 5, 0, 7, 3] 0 4 = %s\n' % lit(env3['t_rec']([1, 5, 0, 7, 3], 0, 4))
+    text += '#guard t_set [1, 2, 2, 3] [3, 4] = %s\n' % lit(env3['t_set']([1, 2, 2, 3], [3, 4]))
     text += 'end SSJ.Gen2Test\n'
     with tempfile.NamedTemporaryFile('w', suffix='.lean', delete=False) as fh:
         fh.write(text)
